@@ -102,7 +102,13 @@ CasesH == {[st |-> Stream(THex(1, 2, 5, <<<<20, RA>>>>) \o THex(0, 1, 15, <<<<20
 CasesC == {[st |-> Stream(T(1, TRUE, cs, <<<<20, RN>>, <<21, r>>>>) \o T(2, TRUE, cs2, <<<<20, RN>>>>) \o T(3, TRUE, 0, <<>>), 3), op |-> Opt(100, 0)] :
              cs \in 0..6, cs2 \in {0, 1, 4}, r \in {RA, RB, RX, RU, RP}}
 
-Cases(fam) == CASE fam = "S" -> CasesS [] fam = "P" -> CasesP [] fam = "E" -> CasesEOK [] fam = "A" -> CasesA [] fam = "H" -> CasesH [] fam = "C" -> CasesC
+\* I: instance schedules - every sequence of 4 instances of the target page, each empty (erase page / repeated
+\* header) or carrying one of two rows, x 1..3 units per PES: an empty instance before, between and after the
+\* non-empty ones, several in a row
+KindsI == <<<<>>, <<<<20, RA>>>>, <<<<22, RC>>>>>>
+CasesI == {[st |-> Stream(Flat([i \in 1..4 |-> T(i, TRUE, 0, KindsI[q[i]])]), g), op |-> Opt(100, 0)] : q \in [1..4 -> 1..3], g \in {1, 2, 3}}
+
+Cases(fam) == CASE fam = "I" -> CasesI [] fam = "S" -> CasesS [] fam = "P" -> CasesP [] fam = "E" -> CasesEOK [] fam = "A" -> CasesA [] fam = "H" -> CasesH [] fam = "C" -> CasesC
 
 ---------------------------------------------------------------------------
 (* truth by construction: units tagged own = k belong to target instance k *)
